@@ -1671,6 +1671,8 @@ class DtsAccessor:
                 (mc_sample_size, no, nt), chunks={0: -1, 1: "auto", 2: "auto"}
             ).chunks
 
+        sections = result.dts.sections
+
         if exclude_parameter_uncertainty:
             # Exclude parameter uncertainty if p_cov == False
             gamma = p_val[0]
